@@ -1,7 +1,8 @@
 //! Hand-written decoders from `arbitrary::Unstructured` to the structured cases of C12/C13/C14
 //! (derive(Arbitrary) is not available offline). Used by the libFuzzer target `filter_ops` and by
 //! the replay of its artifacts.
-use crate::props::{c12, c13, c14};
+use crate::props::{c12, c13, c14, c15, c16};
+use crate::support::td::Scale;
 use crate::support::filters::{FCfg, KeySpec, RngSpec};
 use crate::support::hashers::HKind;
 use arbitrary::{Result, Unstructured};
@@ -98,4 +99,85 @@ pub fn c14(u: &mut Unstructured) -> Result<c14::Case> {
         ops.push(if u.int_in_range(0u8..=2)? == 0 { c14::Op::Delete(k) } else { c14::Op::Insert(k) });
     }
     Ok(c14::Case { cfg, hk, rng: r, universe: uni, ops })
+}
+
+// ---------------------------------------------------------------- T-Digest (libFuzzer target `tdigest_ops`)
+// The decoders stay inside the value / weight / delta ranges of the proptest strategies of C15 and C16.
+
+fn td_scale(u: &mut Unstructured) -> Result<Scale> {
+    Ok([Scale::K0, Scale::K1, Scale::K2, Scale::K3][u.int_in_range(0usize..=3)?])
+}
+
+fn td_delta(u: &mut Unstructured) -> Result<f64> {
+    Ok(match u.int_in_range(0u8..=3)? {
+        0 | 1 => [1.001f64, 1.01, 1.05, 1.1, 2.0, 2.5, 5.0, 10.0, 20.0, 50.0, 100.0, 200.0, 1000.0][u.int_in_range(0usize..=12)?],
+        2 => 1.01 + (u.arbitrary::<u16>()? as f64 / 65535.0) * 28.99,
+        _ => 1.01 + (u.arbitrary::<u16>()? as f64 / 65535.0) * 998.99,
+    })
+}
+
+fn td_backlog(u: &mut Unstructured) -> Result<usize> {
+    Ok(match u.int_in_range(0u8..=3)? {
+        0 => [0usize, 1, 10, 1000][u.int_in_range(0usize..=3)?],
+        _ => u.int_in_range(0usize..=60)?,
+    })
+}
+
+fn td_value(u: &mut Unstructured) -> Result<f64> {
+    Ok(match u.int_in_range(0u8..=7)? {
+        0..=2 => u.int_in_range(0i32..=7)? as f64,
+        3 => [0.1f64, 0.2, 0.3, 1e-3, 1e11, 2e11, 3e11, -3e11][u.int_in_range(0usize..=7)?],
+        4 | 5 => (u.int_in_range(-1_000_000i32..=1_000_000)? as f64) / 1000.0,
+        _ => (1.0 + 9.0 * (u.arbitrary::<u16>()? as f64 / 65535.0)) * 10f64.powi(u.int_in_range(-3i32..=11)?),
+    })
+}
+
+fn td_weight(u: &mut Unstructured) -> Result<f64> {
+    Ok(match u.int_in_range(0u8..=7)? {
+        0..=2 => 1.0,
+        3 => u.int_in_range(1u32..=8)? as f64,
+        4 => [1e-6f64, 1e6, 3.0, 0.5][u.int_in_range(0usize..=3)?],
+        _ => ((1.0 + 9.0 * (u.arbitrary::<u16>()? as f64 / 65535.0)) * 10f64.powi(u.int_in_range(-6i32..=5)?)).clamp(1e-6, 1e6),
+    })
+}
+
+fn td_exp(u: &mut Unstructured) -> Result<i8> {
+    Ok(if u.int_in_range(0u8..=3)? == 0 { u.int_in_range(-30i8..=30)? } else { 0 })
+}
+
+pub fn c15(u: &mut Unstructured) -> Result<c15::Case> {
+    let (scale, delta, backlog) = (td_scale(u)?, td_delta(u)?, td_backlog(u)?);
+    let scale_exp = td_exp(u)?;
+    let nq = u.int_in_range(0usize..=5)?;
+    let qs = (0..nq).map(|_| Ok(u.arbitrary::<u16>()? as f64 / 65535.0)).collect::<Result<Vec<f64>>>()?;
+    let nx = u.int_in_range(0usize..=5)?;
+    let xs_rel = (0..nx).map(|_| Ok(-0.1 + 1.2 * (u.arbitrary::<u16>()? as f64 / 65535.0))).collect::<Result<Vec<f64>>>()?;
+    let n = u.int_in_range(0usize..=150)?;
+    let mut data = Vec::with_capacity(n);
+    for _ in 0..n {
+        let x = td_value(u)?;
+        let w = if u.int_in_range(0u8..=9)? == 0 { 0.0 } else { td_weight(u)? };
+        data.push((x, w));
+    }
+    Ok(c15::Case { scale, delta, backlog, data: c15::Data::Explicit(data), qs, xs_rel, scale_exp })
+}
+
+pub fn c16(u: &mut Unstructured) -> Result<c16::Case> {
+    let (scale, delta, backlog) = (td_scale(u)?, td_delta(u)?, td_backlog(u)?);
+    let (weight_exp, value_exp) = (td_exp(u)?, td_exp(u)?);
+    let n = u.int_in_range(0usize..=150)?;
+    let mut ops = Vec::with_capacity(n);
+    for _ in 0..n {
+        ops.push(match u.int_in_range(0u8..=15)? {
+            0..=6 => c16::Op::Insert(td_value(u)?),
+            7..=9 => c16::Op::InsertW(td_value(u)?, td_weight(u)?),
+            10 => c16::Op::Block { n: u.int_in_range(1u16..=200)?, lo: (u.int_in_range(-1_000_000i32..=1_000_000)? as f64) / 1000.0, span: (u.arbitrary::<u16>()? as f64) / 6.5535, seed: u.arbitrary()? },
+            11 => c16::Op::ZeroW(td_value(u)?),
+            12 => c16::Op::ReadQuantile(u.arbitrary::<u16>()? as f64 / 65535.0),
+            13 => c16::Op::ReadCdf(td_value(u)?),
+            14 => c16::Op::ReadAgg,
+            _ => c16::Op::Clear,
+        });
+    }
+    Ok(c16::normalise(c16::Case { scale, delta, backlog, ops, weight_exp, value_exp }))
 }
